@@ -13,6 +13,7 @@ import BibVerif.Wire.SortFields
 import BibVerif.Wire.SortBlocks
 import BibVerif.Wire.Names
 import BibVerif.Wire.Pipeline
+import BibVerif.Wire.NamesPipeline
 namespace Bib.Wire
 
 /-- every command the driver understands -/
@@ -22,5 +23,6 @@ def handlers : List (String × Handler) :=
   ++ writerHandlers ++ enclosingHandlers ++ interpolateHandlers
   ++ monthHandlers ++ fieldHandlers ++ sortBlocksHandlers
   ++ namesHandlers ++ pipelineHandlers
+  ++ namesPipelineHandlers
 
 end Bib.Wire
